@@ -7,6 +7,8 @@ b="$1"
 GEN="MANIFEST.json lean/Driver.lean lean/EdzedModel.lean lean/EdzedProofs.lean lean/EdzedProps.lean lean/EdzedModel/Gen/Constants.lean"
 git merge --no-commit "$b" || true
 for f in $GEN; do git checkout --ours -- "$f" 2>/dev/null || true; done
+# evidence files are rewritten by every run: take the branch's version
+for f in $(git diff --name-only --diff-filter=U | grep "^evidence/" || true); do git checkout --theirs -- "$f"; git add "$f"; done
 # known_findings.json: union of the entries by id
 if git diff --name-only --diff-filter=U | grep -q '^known_findings.json$'; then
   git show HEAD:known_findings.json > /tmp/kf_ours.json
